@@ -5,6 +5,7 @@ mod c12;
 mod c17;
 mod proj;
 mod c20;
+mod c20s;
 mod c20x;
 mod core;
 mod gen;
@@ -45,7 +46,7 @@ unsafe impl std::alloc::GlobalAlloc for YieldAlloc {
 static GLOBAL: YieldAlloc = YieldAlloc;
 
 fn scenarios() -> Vec<&'static dyn Scenario> {
-    vec![&c20::C20Lib, &c20x::C20Fmt { c10: false }, &c20x::C20Cli, &c20x::C20Macro, &c11::C11Threads { xmod: false, fine: false, fmt: false }, &c11::C11Threads { xmod: true, fine: false, fmt: false }, &c11::C11Threads { xmod: false, fine: true, fmt: false }, &c11::C11Threads { xmod: false, fine: false, fmt: true }, &c08::C08Images, &c17::C17Corrupt, &c12::C12Deliveries, &c12::C12Subsets, &c12::C12XmodEnumeral, &c12::C12XmodName, &c12::C12TagKeywords, &c10::C10Faults, &c10::C10XmodName, &c20x::C20Fmt { c10: true }]
+    vec![&c20::C20Lib, &c20x::C20Fmt { c10: false }, &c20x::C20Cli, &c20x::C20Macro, &c20s::C20Seq, &c11::C11Threads { xmod: false, fine: false, fmt: false }, &c11::C11Threads { xmod: true, fine: false, fmt: false }, &c11::C11Threads { xmod: false, fine: true, fmt: false }, &c11::C11Threads { xmod: false, fine: false, fmt: true }, &c08::C08Images, &c17::C17Corrupt, &c12::C12Deliveries, &c12::C12Subsets, &c12::C12XmodEnumeral, &c12::C12XmodName, &c12::C12TagKeywords, &c10::C10Faults, &c10::C10XmodName, &c20x::C20Fmt { c10: true }]
 }
 
 fn meta(prop: &str) -> (&'static str, Vec<&'static str>, serde_json::Value) {
